@@ -31,7 +31,7 @@ class C01(Case):
         n = sp.get("n", 3)
         cond = sp["cond"]
         need = S.extras_needed(cond)
-        items = S.make_objects(mk, Item, "x", n, extra=tuple(e for e in ("f", "t", "d", "s") if e in need))
+        items = S.make_objects(mk, Item, "x", n, extra=tuple(e for e in ("f", "t", "d", "s", "sl") if e in need))
         try:
             with symbolic_mode():
                 x = let(Item, domain=items)
@@ -113,6 +113,9 @@ def shapes(tier, seed):
     for leaf in vocab:
         out.append(dict(cond=["and", leaf, core[1]]))
         out.append(dict(cond=["or", core[0], leaf]))
+    for tr in (["tr", "x", "a"], ["tr", "x", "sl"]):
+        out.append(dict(cond=["not", ["and", tr, core[0]]]))
+        out.append(dict(cond=["or", ["not", tr], core[1]]))
     # four leaves: a conjunction of disjunctions and a disjunction of conjunctions (sibling operators under one parent)
     quads = [(core[0], core[1], core[2], core[3]), (core[4], core[5], core[6], core[7]), (core[1], core[6], core[3], core[0])]
     for (a_, b_, c_, d_) in quads:
